@@ -465,6 +465,7 @@ theorem sqlite_positions_lose_memory_events :
 EXTRAS4["C07"] = (EXTRAS4["C07"][0] + "\nimport Ebu.Proofs.ConcOrder", EXTRAS4["C07"][1] + '\n/-! ### processed in publish order (M2 with its trace, `Proofs/ConcOrder.lean`) -/\n\n/-- the README\'s "preserves order", for every schedule: the tickets of the asynchronous entries of an Async+Sequential\nregistration, in the order in which its handler was entered, are strictly increasing – with `tickets_in_dispatch_order`\n(tickets are handed out 0,1,2,… in dispatch order) events are processed in the order in which they were dispatched;\ncancelled ones are skipped, none overtakes -/\ntheorem async_seq_entries_in_ticket_order (progs : List (List Ebu.Conc.Op)) (x : Ebu.Conc.SysT)\n    (h : Ebu.Conc.ReachableT progs x) (rid : Nat) (hseq : Ebu.Conc.SeqJobs x.s rid) :\n    (Ebu.Conc.asyncEntryTickets x rid).Pairwise (· < ·) :=\n  Ebu.Conc.async_seq_entries_in_ticket_order h rid hseq\n\n/-- … and whatever has been entered is below the ticket that is served next -/\ntheorem async_seq_entries_below_serving (progs : List (List Ebu.Conc.Op)) (x : Ebu.Conc.SysT)\n    (h : Ebu.Conc.ReachableT progs x) (rid : Nat) (hseq : Ebu.Conc.SeqJobs x.s rid) :\n    ∀ t ∈ Ebu.Conc.asyncEntryTickets x rid, t < Ebu.Conc.lookupD x.s.sh.serving rid + 1 :=\n  Ebu.Conc.async_seq_entries_below_serving h rid hseq\n\n/-- non-vacuity: an Async+Sequential handler, two publishes, the goroutine of the second event scheduled first: it has\nto wait, and the handler is entered with tickets 0 then 1 -/\ntheorem entry_order_example :\n    Ebu.Conc.ReachableT Ebu.Conc.OrderExample.ordProgs Ebu.Conc.OrderExample.ordState ∧\n    Ebu.Conc.SeqJobs Ebu.Conc.OrderExample.ordState.s 0 ∧ Ebu.Conc.OrderExample.ordState.s.allDone ∧\n    Ebu.Conc.asyncEntryTickets Ebu.Conc.OrderExample.ordState 0 = [0, 1] ∧\n    Ebu.Conc.lookupD Ebu.Conc.OrderExample.ordState.s.sh.serving 0 = 2 :=\n  Ebu.Conc.OrderExample.order_hypotheses_satisfiable\n')
 EXTRAS4["C07"] = (EXTRAS4["C07"][0] + "\nimport Ebu.Model.TurnLock", EXTRAS4["C07"][1] + '\n/-! ### the wake-up discipline of the ticket lock (M2t, `Ebu/Model/TurnLock.lean`) -/\n\n/-- how `releaseTurn` wakes the goroutines waiting for their turn in the CURRENT source (read off its control-flow skeleton) -/\ndef sourceTurnWake : Ebu.Inflight.Wake :=\n  if Ebu.Flow.occurs Ebu.Generated.Flow.turnBroadcast Ebu.Generated.Flow.releaseTurnFlow then .broadcast\n  else if Ebu.Flow.occurs Ebu.Generated.Flow.turnSignal Ebu.Generated.Flow.releaseTurnFlow then .signal else .none\n\n/-- OBLIGATION on the current source + consequence: `releaseTurn` broadcasts, hence – whatever the order in which\ngoroutines ask for their turn, park, are woken and resume – no goroutine is ever parked while its own ticket is being\nserved: the turn step of M2 ("enabled exactly when serving = ticket") abstracts the condition variable soundly -/\ntheorem turn_wakeups_never_lost (ops : List Ebu.TurnLock.Op) :\n    sourceTurnWake = .broadcast ∧ Ebu.TurnLock.NoLostWakeup (Ebu.TurnLock.run sourceTurnWake ops) := by\n  have h : sourceTurnWake = .broadcast := by decide +kernel\n  exact ⟨h, h ▸ Ebu.TurnLock.broadcast_no_lost_wakeup ops⟩\n\n/-- the obligation is not decoration: with `Signal` the wake-up can go to a goroutine whose turn it is not, and the one\nwhose turn it is sleeps on -/\ntheorem turn_signal_would_lose_a_wakeup :\n    ¬ Ebu.TurnLock.NoLostWakeup (Ebu.TurnLock.run .signal [.await 0 0, .await 2 2, .await 1 1, .release, .resume 2]) :=\n  Ebu.TurnLock.signal_loses_wakeup\n')
 EXTRAS4["C08"] = ("Ebu.Proofs.ConcCancelWitness", "/-! ### cancellation under concurrency (M2): the wait for a Sequential handler's mutex -/\n\n/-- C08 under concurrency: a SYNCHRONOUS handler is never entered for a publish whose context is cancelled – also when\nits goroutine had to wait for the handler's Sequential mutex (the context is checked again once the mutex is held: the\n`fix:` commit 1feea95): every step that emits a synchronous entry is taken by a goroutine whose innermost publish\ncontext is live before the step -/\ntheorem sync_entry_only_if_live (sh : Ebu.Conc.Shared) (th : Ebu.Conc.Thread) (o : Ebu.Conc.Out)\n    (h : Ebu.Conc.step sh th = some o) (rid ty v : Nat) (he : Ebu.Conc.Obs.enter rid ty v false ∈ o.obs) :\n    ∃ f fs, th.frames = f :: fs ∧ sh.live f.ctx = true :=\n  Ebu.Conc.CancelWitness.sync_entry_only_if_live sh th o h rid ty v he\n\n/-- … and on the schedule of the former defect (goroutine 1 has passed its context check and waits for the handler's\nmutex, context 1 is cancelled, goroutine 0 leaves the handler) goroutine 1's next step enters nothing: the handler is\nskipped.  The same history is replayed on the real code by the `seqcancel` scenario of the `stress` domain. -/\ntheorem cancelled_waiter_is_skipped :\n    Ebu.Conc.entriesOfReg 0 Ebu.Conc.CancelWitness.cwAfter.tr = Ebu.Conc.entriesOfReg 0 Ebu.Conc.CancelWitness.cwState.tr :=\n  Ebu.Conc.CancelWitness.cancelled_waiter_is_skipped\n")
+EXTRAS4["C08"] = (EXTRAS4["C08"][0] + "\nimport Ebu.Proofs.ConcAsyncLive", EXTRAS4["C08"][1] + "\n/-- … and the asynchronous half: the goroutine of an Async handler enters the handler only while the context of the\npublish it was started for is live – whether it checks right at its start (plain Async) or after it has waited for its\nturn and for the handler's mutex (Async+Sequential) – and what it enters is exactly the delivery it was started for -/\ntheorem async_entry_only_if_live (progs : List (List Ebu.Conc.Op)) (x : Ebu.Conc.SysT) (h : Ebu.Conc.ReachableT progs x)\n    (i : Nat) (th : Ebu.Conc.Thread) (o : Ebu.Conc.Out) (hi : x.s.ths[i]? = some th)\n    (hstep : Ebu.Conc.step x.s.sh th = some o) (rid ty v : Nat) (he : Ebu.Conc.Obs.enter rid ty v true ∈ o.obs) :\n    ∃ j, th.job = some j ∧ x.s.sh.live j.ctx = true ∧ rid = j.reg.rid ∧ ty = j.ty ∧ v = j.v :=\n  Ebu.Conc.async_entry_only_if_live h i th o hi hstep rid ty v he\n\n/-- a goroutine whose publish context is cancelled before it has entered its handler never enters it, however the run\ngoes on -/\ntheorem cancelled_job_never_enters_later (progs : List (List Ebu.Conc.Op)) (x x2 : Ebu.Conc.SysT)\n    (h : Ebu.Conc.ReachableT progs x) (hs : Ebu.Conc.StepsT x x2) (i : Nat) (th : Ebu.Conc.Thread) (j : Ebu.Conc.Job)\n    (hi : x.s.ths[i]? = some th) (hj : th.job = some j) (hdead : x.s.sh.live j.ctx = false)\n    (hnot : Ebu.Conc.asyncEntersOf i x.tr = []) :\n    Ebu.Conc.asyncEntersOf i x2.tr = [] ∧ x2.s.sh.live j.ctx = false ∧\n    ∃ th2, x2.s.ths[i]? = some th2 ∧ th2.job = some j :=\n  Ebu.Conc.cancelled_job_never_enters_later h hs i th j hi hj hdead hnot\n")
 EXTRAS4["C02"] = ("Ebu.Proofs.ConcDead", '/-! ### a removed handler is never invoked again (M2 with its trace, `Proofs/ConcDead.lean`) -/\n\n/-- "a handler whose removal returned before the publish was called … never receives it": once a registration is\nneither in the registry nor carried by a publish in progress (in the rest of a snapshot, as running handler, at a\nprogram counter, as the job of a goroutine), it stays that way and no step ever enters it – whatever is published\nafterwards, under every schedule -/\ntheorem removed_registration_is_dead (progs : List (List Ebu.Conc.Op)) (x x2 : Ebu.Conc.SysT)\n    (h : Ebu.Conc.ReachableT progs x) (hs : Ebu.Conc.StepsT x x2) (rid : Nat) (hrid : rid < x.s.sh.nextRid)\n    (hgone : ∀ r ∈ x.s.sh.regs, r.rid ≠ rid) (hfree : ∀ th ∈ x.s.ths, Ebu.Conc.carriesReg rid th = false) :\n    Ebu.Conc.entriesOfReg rid x2.tr = Ebu.Conc.entriesOfReg rid x.tr ∧\n    (∀ r ∈ x2.s.sh.regs, r.rid ≠ rid) ∧ (∀ th ∈ x2.s.ths, Ebu.Conc.carriesReg rid th = false) :=\n  Ebu.Conc.removed_registration_is_dead h hs rid hrid hgone hfree\n\n/-- a registration is entered only by a goroutine that carried it before the step (it was in a snapshot taken while the\nregistration was registered): nothing is delivered to a handler out of thin air -/\ntheorem entered_only_if_carried (x x2 : Ebu.Conc.SysT) (i : Nat) (hstep : x.stepAt i = some x2) (rid : Nat)\n    (hnew : Ebu.Conc.entriesOfReg rid x2.tr ≠ Ebu.Conc.entriesOfReg rid x.tr) :\n    ∃ th, x.s.ths[i]? = some th ∧ Ebu.Conc.carriesReg rid th = true :=\n  Ebu.Conc.entered_only_if_carried_strong hstep rid hnew\n\n/-- non-vacuity: subscribe, publish, unsubscribe, publish – the handler ran once, then the hypotheses hold, and the\nsecond publish does not reach it -/\ntheorem removed_registration_example :\n    Ebu.Conc.ReachableT Ebu.Conc.DeadExample.dxProgs Ebu.Conc.DeadExample.dxState ∧\n    Ebu.Conc.StepsT Ebu.Conc.DeadExample.dxState Ebu.Conc.DeadExample.dxFinal ∧\n    0 < Ebu.Conc.DeadExample.dxState.s.sh.nextRid ∧\n    (∀ r ∈ Ebu.Conc.DeadExample.dxState.s.sh.regs, r.rid ≠ 0) ∧\n    (∀ th ∈ Ebu.Conc.DeadExample.dxState.s.ths, Ebu.Conc.carriesReg 0 th = false) ∧\n    Ebu.Conc.entriesOfReg 0 Ebu.Conc.DeadExample.dxState.tr = [(0, Ebu.Conc.Obs.enter 0 0 1 false)] ∧\n    Ebu.Conc.DeadExample.dxFinal.s.ths.map (·.pc) = [Ebu.Conc.Pc.done] ∧\n    Ebu.Conc.entriesOfReg 0 Ebu.Conc.DeadExample.dxFinal.tr = [(0, Ebu.Conc.Obs.enter 0 0 1 false)] :=\n  Ebu.Conc.dead_hypotheses_satisfiable\n')
 for extras in (EXTRAS, EXTRAS2, EXTRAS3, EXTRAS4):
     for prop, (imp, text) in extras.items():
